@@ -71,6 +71,11 @@ static const double %(u)s_KD = %(dbl)r;
 enum %(u)s_en { %(u)s_EA = %(k2)d, %(u)s_EB, %(u)s_EC = %(k1)d + 100 };
 union %(u)s_un { %(T1)s i; double d; char c[%(n)d]; };
 int %(u)s_unsize(void) { return (int)sizeof(union %(u)s_un); }
+double %(u)s_und(union %(u)s_un x) { return x.d * 2; }
+union %(u)s_un %(u)s_unret(double d) { union %(u)s_un x; memset(&x, 0, sizeof(x)); x.d = d; return x; }
+struct %(u)s_rec { int key; int w[3]; };
+long long %(u)s_sumw(struct %(u)s_rec *a, int n) { long long s = 0; int i, j; for (i = 0; i < n; i++) for (j = 0; j < 3; j++) s += a[i].w[j]; return s; }
+long long %(u)s_sum2(int (*a)[4], int n) { long long s = 0; int i, j; for (i = 0; i < n; i++) for (j = 1; j < 4; j++) s += a[i][j]; return s; }
 struct %(u)s_bf { unsigned int p : %(bw1)d; int q : %(bw2)d; %(T2)s tail; };
 int %(u)s_bfq(struct %(u)s_bf *s) { return s->q; }
 struct %(u)s_opq { int secret; };
@@ -109,6 +114,11 @@ static const double %(u)s_KD;
 enum %(u)s_en { %(u)s_EA = %(k2)d, %(u)s_EB, %(u)s_EC = ... };
 union %(u)s_un { %(T1)s i; double d; char c[%(n)d]; };
 int %(u)s_unsize(void);
+double %(u)s_und(union %(u)s_un x);
+union %(u)s_un %(u)s_unret(double d);
+struct %(u)s_rec { int key; int w[3]; };
+long long %(u)s_sumw(struct %(u)s_rec *a, int n);
+long long %(u)s_sum2(int (*a)[4], int n);
 struct %(u)s_bf { unsigned int p : %(bw1)d; int q : %(bw2)d; %(T2)s tail; };
 int %(u)s_bfq(struct %(u)s_bf *s);
 struct %(u)s_opq;
@@ -173,6 +183,16 @@ _Bool %(u)s_not(_Bool b);
     P.append(('double-constant', lambda f, l: g(l, 'KD')))
     P.append(('enum-dotdotdot', lambda f, l: (g(l, 'EA'), g(l, 'EB'), g(l, 'EC'), sorted(f.typeof('enum %s_en' % u).relements.items()), f.sizeof('enum %s_en' % u))))
     P.append(('union', lambda f, l: (f.sizeof('union %s_un' % u), g(l, 'unsize')(), f.offsetof('union %s_un' % u, 'c'))))
+    P.append(('union-by-value-arg', lambda f, l: g(l, 'und')(f.new('union %s_un *' % u, {'d': dbl})[0])))
+    P.append(('union-by-value-arg-dict', lambda f, l: g(l, 'und')({'d': dbl})))
+    P.append(('union-by-value-result', lambda f, l: g(l, 'unret')(dbl).d))
+    big = r.choice([41, 60, 200])        # > 640 bytes: the malloc'ed temporary of the wrappers
+    P.append(('large-list-of-full-structs', lambda f, l: g(l, 'sumw')([[5, [7, 8, 9]]] * big, big)))
+    P.append(('large-list-of-partial-structs', lambda f, l: g(l, 'sumw')([[k1]] * big, big)))
+    P.append(('large-list-of-partial-struct-dicts', lambda f, l: g(l, 'sumw')([{'key': 3}] * big, big)))
+    P.append(('large-list-of-full-rows', lambda f, l: g(l, 'sum2')([[1, 2, 3, 4]] * big, big)))
+    P.append(('large-list-of-partial-rows', lambda f, l: g(l, 'sum2')([[k1]] * big, big)))
+    P.append(('small-list-of-partial-structs', lambda f, l: g(l, 'sumw')([[k1]] * 5, 5)))
     P.append(('bitfield-struct', lambda f, l: (lambda p: (f.sizeof('struct %s_bf' % u), g(l, 'bfq')(p), p.p, p.tail))(f.new('struct %s_bf *' % u, {'p': 1, 'q': -1, 'tail': b1}))))
     P.append(('bitfield-overflow', lambda f, l: f.new('struct %s_bf *' % u, {'p': 1 << bw1})))
     P.append(('opaque-struct', lambda f, l: (lambda p: (g(l, 'useopq')(p), f.typeof(p).cname))(g(l, 'getopq')())))
